@@ -19,6 +19,8 @@ import (
 	"fmt"
 	"io"
 
+	"github.com/miekg/dns"
+
 	"github.com/semihalev/sdns/zzverif/vlib"
 	"github.com/semihalev/zlog/v2"
 )
@@ -51,7 +53,10 @@ func runPipeline(r *vlib.Run) {
 		for k := 0; k < perCfgAAAA; k++ {
 			idx := ci*1000 + k
 			c := genPipeCase(r.RandN("case", idx), e, cfg, idx)
-			judgePipe(r, e, c, e.run(c))
+			v := judgePipe(r, e, c, e.run(c))
+			if v.Synth > 0 && len(v.Violations) == 0 {
+				roundTrip(r, e, c, v.SynthAddrs)
+			}
 		}
 		for k := 0; k < perCfgPTR; k++ {
 			idx := ci*1000 + 500 + k
@@ -59,6 +64,56 @@ func runPipeline(r *vlib.Run) {
 			judgePTR(r, e, c, e.run(c))
 		}
 		r.Progress("configs %d/%d", ci+1, nCfg)
+	}
+}
+
+// roundTrip: the reverse lookup of addresses the server has just handed out.
+// For up to two of the AAAA records synthesised for c (rotating through the
+// reply, so records of every configured prefix are visited) the same client
+// asks for the ip6.arpa PTR name; judged by judgePTR like any other PTR case.
+func roundTrip(r *vlib.Run, e *env, c *pipeCase, addrs [][16]byte) {
+	if len(addrs) == 0 {
+		return
+	}
+	at := []int{c.Index % len(addrs)}
+	if len(addrs) > 1 {
+		at = append(at, (c.Index+1+(c.Index/7)%(len(addrs)-1))%len(addrs))
+	}
+	for k, i := range at {
+		if k > 0 && i == at[0] {
+			continue
+		}
+		rng := r.RandN("roundtrip", c.Index*4+k)
+		addr := addrs[i]
+		name := refIP6Arpa(addr)
+		pc := &pipeCase{Kind: "ptr", Index: c.Index, Cfg: c.Cfg, Client: c.Client, Proto: c.Proto, Qname: name,
+			Qtype: dns.TypePTR, RD: true, AD: rng.IntN(3) == 0, EDNS: c.EDNS, DO: c.DO, PTRGen: "roundtrip-of-synthesised",
+			Resp: respSpec{Shape: "ptr-nxdomain", Rcode: dns.RcodeNameError, RA: true, AD: rng.IntN(3) == 0, EDNS: rng.IntN(2) == 0,
+				Ns: []string{soaRR("ip6.arpa.", 3600, 3600)}},
+			A: respSpec{Shape: "unused", Rcode: dns.RcodeRefused}}
+		// the in-addr.arpa zone answers for whichever name is asked
+		pc.PTR = respSpec{Shape: "ptr", RA: true, AD: rng.IntN(3) == 0}
+		if rng.IntN(4) == 0 {
+			pc.PTR = respSpec{Shape: "nxdomain", RA: true, Rcode: dns.RcodeNameError}
+		} else if rds := readingsOf(e.m, addr); len(rds) > 0 {
+			for _, rd := range rds {
+				if rd.conf {
+					pc.PTR.Answer = append(pc.PTR.Answer, fmt.Sprintf("%s %d IN PTR host-%d.example.com.", refInAddrArpa(rd.v4), pick(rng, ttlPool), rng.IntN(100)))
+					break
+				}
+			}
+		}
+		v := judgePTR(r, e, pc, e.run(pc))
+		r.Count("ptr_roundtrips_of_synthesised", 1)
+		if v.Translated && len(v.Violations) == 0 {
+			r.Count("ptr_roundtrips_of_synthesised_translated", 1)
+			if len(e.m.prefixes) > 1 {
+				r.Count("ptr_roundtrips_of_synthesised_translated_multi_prefix", 1)
+			}
+			if len(e.m.inner) > 0 {
+				r.Count("ptr_roundtrips_of_synthesised_translated_overlapping_prefixes", 1)
+			}
+		}
 	}
 }
 
@@ -156,6 +211,16 @@ func main() {
 	r.Require("synth_replies_defaulted_wkp", 50)
 	r.Require("filtered_all_stripped_no_synth_upstream_ad", 20)
 	r.Require("filtered_all_stripped_no_synth_upstream_ad/a-all-excluded-under-wkp", 3)
+	// overlapping configured prefixes (a longer prefix inside a shorter one,
+	// either order) and reverse lookups of addresses just handed out
+	r.Require("synth_replies_overlapping_prefixes", 100)
+	r.Require("synth_records_under_overlapped_prefix", 50)
+	r.Require("ptr_cases_overlapping_prefixes", 200)
+	r.Require("ptr_translated_under_overlapped_prefix", 40)
+	r.Require("ptr_translated_under_overlapping_prefix_listed_first", 40)
+	r.Require("ptr_roundtrips_of_synthesised_translated", 500)
+	r.Require("ptr_roundtrips_of_synthesised_translated_multi_prefix", 200)
+	r.Require("ptr_roundtrips_of_synthesised_translated_overlapping_prefixes", 50)
 	r.Require("ptr_passthrough_malformed_name", 20)
 	r.Require("ptr_passthrough_outside_prefixes", 20)
 
@@ -166,6 +231,7 @@ func main() {
 	r.Assume("layer C: the downstream response the oracle judges against is the message recorded by a harness observer directly below dns64 (client pass and secondary A / in-addr.arpa lookups, with the failure provenance visible on the context dns64 handed down); where a request passed dns64 undecoded, the scripted stub's reply stands")
 	r.Assume("layer C: a cached failure is a SERVFAIL served below dns64 for a repeated question without consulting the stub (the real RFC 9520 failure cache; first query fails and is recorded); a request-local failure is a stub reply marked with middleware.MarkRequestLocalFailureResponse for an attempt-limit, deadline, max-recursion, work-limit, shed, probe-limit or cancellation error")
 	r.Assume("layer C: truncated replies (TC=1, content removed by edns) are counted, not judged; a PTR name under an RFC 6303 empty zone that as112 answers ahead of dns64 (production order, query never reached dns64) is counted as ptr_shadowed_by_empty_zone, not as a missing translation; wire and decoded entries are compared on rcode, AD and answer section (TTL ignored on a repeated question) only when both were answered from the same basis below dns64")
+	r.Assume("configured prefixes may overlap: an address is 'an RFC 6052 embedding' when it is a conformant embedding under ANY legal configured prefix that contains it; its ip6.arpa name must be redirected when some such reading is of an IPv4 address that is not excluded, and a redirect is correct when its target is the IPv4 address of one of the readings (an address conformant under two overlapping prefixes may map back to either)")
 	r.Assume("default WKP IPv4 exclusions: IANA special-purpose entries with Globally Reachable=False must be skipped; 192.0.0.0/24, 192.88.99.0/24, 224.0.0.0/4 may be skipped or translated")
-	r.Finish("pure: every octet-boundary IPv4 (0,1,127,128,255 per octet) plus random addresses x generated prefixes of each legal length, illegal lengths/IPv4//96-with-nonzero-u refused; pipeline: generated configs (1-3 prefixes, illegal entries, client networks, excluded zones, A/AAAA exclusions) x AAAA-response shapes x A-response shapes x client flags/addresses, and ip6.arpa PTR names (valid, non-conformant, outside, malformed); layer C: the same generators plus real failure-cache (EDNS / non-EDNS second client) and request-local-failure flows through [… edns … dns64, cache, stub] and [dns64, cache, stub], each case through ServeMsg, ServeRaw (udp|tcp strict job) and, for udp, the reader's inline pass + replay, under per-execution names; a case is distinct non-trivial by (prefix lengths, AAAA shape, A shape, #A) when synthesised, by (sole reason, shapes) when suppressed, by (length, chase shape) for PTR")
+	r.Finish("pure: every octet-boundary IPv4 (0,1,127,128,255 per octet) plus random addresses x generated prefixes of each legal length, illegal lengths/IPv4//96-with-nonzero-u refused; pipeline: generated configs (1-3 prefixes, illegal entries, client networks, excluded zones, A/AAAA exclusions) x AAAA-response shapes x A-response shapes x client flags/addresses, and ip6.arpa PTR names (valid, non-conformant, outside, malformed), with 18% of the configurations given OVERLAPPING prefixes (a longer legal prefix inside a shorter operator prefix, listed before or after it), and after every cleanly synthesised reply the reverse lookup of up to two of the addresses just handed out; layer C: the same generators plus real failure-cache (EDNS / non-EDNS second client) and request-local-failure flows through [… edns … dns64, cache, stub] and [dns64, cache, stub], each case through ServeMsg, ServeRaw (udp|tcp strict job) and, for udp, the reader's inline pass + replay, under per-execution names; a case is distinct non-trivial by (prefix lengths, AAAA shape, A shape, #A) when synthesised, by (sole reason, shapes) when suppressed, by (length, chase shape) for PTR")
 }
